@@ -60,7 +60,7 @@ def dc_models():
     for n in (1, 2, 3):
         for ndef in range(0, n + 1):
             for kind in ("dataclass", "namedtuple", "dc-initfalse", "dc-kwonly", "dc-allkwonly", "nt-subclass", "nt-collections",
-                         "nt-collections-subclass", "dc-subclass"):
+                         "nt-collections-subclass", "dc-subclass", "dc-subclass-base-first"):
                 out.append((kind, n, ndef))
     return out
 
@@ -86,7 +86,7 @@ def dc_source(kind, n, ndef):
         dflt = [100 + i for i in range(n - ndef, n)]
         src = f"from collections import namedtuple\nNT0 = namedtuple('DC', {names!r}, defaults={dflt!r})\n"
         return src + ("DC = NT0\n" if kind == "nt-collections" else "class DC(NT0):\n    pass\n")
-    if kind == "dc-subclass":
+    if kind in ("dc-subclass", "dc-subclass-base-first"):
         # fields declared on a base dataclass and on the subclass
         base = "from dataclasses import dataclass\n@dataclass\nclass Base:\n" + ("\n".join(fields[:1]) if fields else "    pass") + "\n"
         rest = "\n".join(fields[1:]) if len(fields) > 1 else "    pass"
@@ -324,6 +324,14 @@ class C06(Check):
         DC = g["DC"]
         canon = repr(payload)
         res = {"n": 1, "nt": [canon], "oc": [], "tags": {}, "viol": []}
+        if kind == "dc-subclass-base-first":
+            # the BASE class is lowered earlier in the same process (then the class derived from it)
+            b_lam = ast.Lambda(ast.arguments(posonlyargs=[], args=[ast.arg("e")], kwonlyargs=[], kw_defaults=[], defaults=[]),
+                               ast.Call(ast.Constant(g["Base"]), [ast.Constant(1)] if n else [], []))
+            try:
+                resolve_syntatic_sugar(b_lam)
+            except Exception:
+                pass
         pos = [ast.Constant(10 + i) for i in range(npos)]
         kw = [ast.keyword(f"f{i}", ast.Constant(10 + i)) for i in kws]
         if unknown:
